@@ -37,7 +37,29 @@ def write_crate(d, pkg, features=(), examples=None, lib=None, extra_deps=""):
                 fh.write(src)
 
 
+class tgt_lock:
+    """Serialises users of one shared cargo target directory (several checks /
+    scratch copies may run concurrently)."""
+
+    def __init__(self, tgt_name):
+        os.makedirs(os.path.join(facts.CACHE, "tgt"), exist_ok=True)
+        self.path = os.path.join(facts.CACHE, "tgt", tgt_name + ".lock")
+
+    def __enter__(self):
+        import fcntl
+        self.fh = open(self.path, "w")
+        fcntl.flock(self.fh, fcntl.LOCK_EX)
+
+    def __exit__(self, *a):
+        self.fh.close()
+
+
 def cargo_check(d, tgt_name, args, toolchain=None):
+    with tgt_lock(tgt_name):
+        return _cargo_check(d, tgt_name, args, toolchain)
+
+
+def _cargo_check(d, tgt_name, args, toolchain=None):
     """Runs cargo check with JSON diagnostics; returns (returncode, [json records], raw)."""
     env = dict(os.environ)
     env["CARGO_TARGET_DIR"] = os.path.join(facts.CACHE, "tgt", tgt_name)
@@ -83,6 +105,11 @@ def diagnostics(recs):
 
 
 def extract(d, pkg, tgt_name, config_label):
+    with tgt_lock(tgt_name):
+        return _extract(d, pkg, tgt_name, config_label)
+
+
+def _extract(d, pkg, tgt_name, config_label):
     """Runs the fact exporter (Engine A) over the witness crate `pkg` in `d`
     and returns its facts.Crate.  Only type-checking happens."""
     import glob
